@@ -8,7 +8,7 @@
   authors of the specs, each once), the VML tree — projected onto the modelled attributes / children of
   `v:shape` and `x:ClientData` — must equal `writeVml cs`, attribute order ignored; run properties are
   opaque: the `<rPr>` element of the real part is plugged into the model value where the spec says the run
-  has a font.  Both: `r=` is the getter view of `joinByPosition (readComments ..) (readVml ..)` on the real trees.
+  has a font.  Both: `r=` is the getter view of `joinShapes (readComments ..) (readVml ..)` on the real trees.
 -/
 import Umya.Driver.Proto
 import Umya.Driver.C06Codec
@@ -150,7 +150,7 @@ def joined (croot : Node) (vroot : Option Node) : String :=
     | some v =>
       match readVml v with
       | none => "panic"
-      | some ss => viewAll (joinByPosition rc ss)
+      | some ss => viewAll (joinShapes rc ss)
 
 def clip (s : String) : String := if s.length > 1500 then (s.take 1500).toString ++ "…" else s
 
